@@ -186,8 +186,10 @@ func (r *Reader) cleanState(b byte) {
 
 func (r *Reader) eachByte(b byte) {
 	if b >= 0xF8 {
-		//r.OnMsg([]byte{b, 0, 0}, r.ts_ms)
-		r.OnMsg([]byte{b}, r.ts_ms)
+		// 0xFD is an undefined realtime status: it is skipped
+		if b != 0xFD {
+			r.OnMsg([]byte{b}, r.ts_ms)
+		}
 		return
 	}
 
